@@ -103,4 +103,11 @@ def diaOfDenseJ (j : Json) : Except String Json := do
   pure <| Json.mkObj [("abs", absJ rows cols out.abs),
     ("diags", Json.arr (out.diags.map fun p => Json.arr #[(p.1 : Json), Json.arr ((List.range cols).map fun c => ciJ (p.2 c)).toArray]).toArray)]
 
+def matmulDiaJ (j : Json) : Except String Json := do
+  let a ← diaOf j "a"
+  let b ← diaOf j "b"
+  let s ← ciOf (← j.getObjVal? "scale")
+  let out := matmulDia a b s
+  pure <| Json.mkObj [("abs", absJ out.rows out.cols out.abs), ("offsets", Json.arr (out.diags.map fun p => (p.1 : Json)).toArray)]
+
 end Qv.Drv.C01
